@@ -1,5 +1,6 @@
 import Fabio.Generated.C20
 import Fabio.Model.C20Spec
+import Fabio.Model.C20Log
 /-!
 Obligations over the facts regenerated from `/repo` on every run (`tools/factgen/c20.go`): the tables and
 constants the model of the access logger depends on, and the call shapes behind "UTC", "never nil",
@@ -75,5 +76,27 @@ theorem call_site_pinned :
     Generated.C20.eventSite.lookup "Request" = some "r" ∧
     Generated.C20.eventSite.lookup "End" = some "end" ∧
     Generated.C20.eventSite.lookup "Start" = some "start" := by decide
+
+/-- which micro-step of the `Log` model a call in `Log` stands for -/
+def opOfCall : String → Option Model.C20Log.Op
+  | "pool.Get" => some .get
+  | "l.p.write" => some .render
+  | "l.mu.Lock" => some .lock
+  | "l.w.Write" => some .write
+  | "l.mu.Unlock" => some .unlock
+  | "pool.Put" => some .put
+  | _ => none
+
+/-- `Log` performs get, render, lock, write, unlock, put in exactly the order of the model's `goodProg`
+(in particular `pool.Put` comes after `l.w.Write`), the bytes handed to the writer are taken from the
+buffer inside the `Write` call itself (`b.Bytes()` under the mutex, no alias taken earlier), nothing is
+deferred or spawned; the logger's own state is the pattern, the mutex and the writer, the buffers live in
+a package-level `sync.Pool`. -/
+theorem log_call_order_pinned :
+    Generated.C20.logCalls.filterMap opOfCall = Model.C20Log.goodProg ∧
+    Generated.C20.logCalls = ["pool.Get", "b.Reset", "l.p.write", "l.mu.Lock", "l.w.Write", "b.Bytes", "l.mu.Unlock", "pool.Put"] ∧
+    Generated.C20.logWriteArg = "b.Bytes()" ∧ Generated.C20.logUsesDeferOrGo = false ∧
+    Generated.C20.loggerStructFields = ["p pattern", "mu sync.Mutex", "w io.Writer"] ∧
+    Generated.C20.poolType = "sync.Pool" := by decide
 
 end Fabio.Props.C20Facts
